@@ -269,6 +269,8 @@ class FeaturizerContract:
                     fn = z3.Function(fresh_name("design"), z3.IntSort(), z3.RealSort())
                     interp.__dict__.setdefault("design_requests", []).append(dict(sig=sig, fn=fn))
                 x = XFrame(df.axis, {"<design>": V(fn(df.axis.root.u), (df.axis,))}, df.index, df.idkey)
+                x._ncols = z3.Int(fresh_name("n_complete_features"))
+                interp.ctx.assume(x._ncols >= 1)
                 return x
 
             return prepare_data
@@ -276,6 +278,13 @@ class FeaturizerContract:
 
             def keep(df):
                 x = XFrame(df.axis, dict(df.cols), df.index, df.idkey)
+                # the active features are some of the complete ones (at least the intercept / one column)
+                if getattr(self, "_n_active", None) is None:
+                    self._n_active = z3.Int(fresh_name("n_active_features"))
+                    interp.ctx.assume(self._n_active >= 1)
+                    if getattr(df, "_ncols", None) is not None:
+                        interp.ctx.assume(self._n_active <= df._ncols)
+                x._ncols = self._n_active
                 return x
 
             return keep
